@@ -231,7 +231,10 @@ def c15(tier, seed):
                "every list of length <= k (quick 2, thorough 3) over 16 doc texts (plain, empty, `*/`, `/*`, `**/*.rs`, `export type Z = `, quotes and backslash, non-ASCII, blank line inside, newline only, 300 characters, block forms with and without leading stars, block with `*/`, `//`, template syntax) as #[doc = ..] attributes: (1) the real parse_docs yields one well-formed JSDoc block: starts with /**, ends with */ + newline, no earlier */, contains every non-empty doc line (modulo escaping of the terminator); (2) at 9 positions (struct, enum, field, second field, variant, variant field, flattened field, tuple field, field of a tagged variant) the real derive with the docs differs from the derive without them only by the DOCS constant and the field's doc prefix, and the block is carried where the property requires it. distinct = distinct doc blocks",
                "exhaustive enumeration of doc-attribute lists x positions through the real parse_docs and derive, in process")
     m = run_e1(exe, "docs", tier)
-    r.absorb(m)
+    r.absorb(m, "inproc.")
+    # (ii) compiled: 20 doc texts x 11 positions exported alone and merged (3 orders) with two neighbours
+    _e2("docs", tier, "C15", r)
+    r.rule += "; (ii) compiled: 20 doc-attribute lists x 11 positions (struct/enum/newtype container, first/last field, variant field (also tagged), variant, flattened field, tuple field, type+field), each exported alone and merged through the real merge() with a neighbour sorting before and one after in 3 orders: swc must parse the file, find exactly the expected declarations (no documentation read as code), the declared type must equal the doc-free twin's, and for types and named fields exactly one block comment containing the text must lead the item"
     r.assumptions = ["a JavaScript block comment ends at the first */ after its opener (lexical fact, also confirmed by swc in the exported-file checks)"]
     return r
 
@@ -269,9 +272,10 @@ def c02(tier, seed):
 
 
 def c04(tier, seed):
-    r = Result("exploration", "every export_to_string() of the main corpus (" + MAIN_RULE + ") and every file written by the dependency-graph corpus (see C03) under import-esm off/on; oracle: swc parses the text as a module without errors; first line is the notice; only `import type` then only `export type`; declared names == types exported to the file, each once; ends with a newline. distinct = distinct case sources / (root, locations)",
+    r = Result("exploration", "string-content corpus: 26 strings (plain, dash, space, digit first, empty, quote, inner quote, backslash, trailing backslash, apostrophe, backtick, ${x}, */, /*, //, newline, tab, CRLF, NUL, é, CJK, $, _, constructor, __proto__, \\u0041) in each of 12 positions (field rename, variant-field rename, struct tag, enum tag internal/adjacent, content, variant rename unit/struct x external/internal/adjacent) + 6 type-level renames that are valid identifiers: the file must parse AND the value swc reads for the key / literal must equal the Rust string; plus every export_to_string() of the main corpus (" + MAIN_RULE + ") and every file written by the dependency-graph corpus (see C03) under import-esm off/on; oracle: swc parses the text as a module without errors; first line is the notice; only `import type` then only `export type`; declared names == types exported to the file, each once; ends with a newline. distinct = distinct case sources / (root, locations)",
                "exhaustive enumeration of exported files, parsed with an independent TypeScript grammar")
     _e2("main", tier, "C04", r)
+    _e2("strings", tier, "C04", r)
     for feats, m in _graph(tier, "C04"):
         r.absorb(m, ("graph-esm." if feats else "graph-cjs."))
     r.assumptions = ["swc_ecma_parser 0.144 is the independent TypeScript grammar"]
